@@ -511,6 +511,12 @@ func TestVerif_C16(t *testing.T) { c16Campaign(t, "C16", "C16", "C16Check", 1616
 // the same multi-allocation TCP-relay histories, judged by C04's isolation predicate (Check/C04TcpCheck.v)
 func TestVerif_C04TCP(t *testing.T) { c16Campaign(t, "C04", "C04tcp", "C04TcpCheck", 404) }
 
+// ... and by C03's "ConnectionBind only for the owner's user; a refused ConnectionBind changes nothing" (Check/C03TcpCheck.v)
+func TestVerif_C03TCP(t *testing.T) { c16Campaign(t, "C03", "C03tcp", "C03TcpCheck", 303) }
+
+// ... and by C09's "no well-formed request sequence wedges the server" (Check/C09TcpCheck.v)
+func TestVerif_C09TCP(t *testing.T) { c16Campaign(t, "C09", "C09tcp", "C09TcpCheck", 909) }
+
 func c16Campaign(t *testing.T, prop, colName, module string, seedOff uint64) {
 	// a goroutine stuck on a mutex keeps a synctest bubble from ever becoming idle: report it in real time
 	watchdog := time.AfterFunc(90*time.Second, func() {
